@@ -16,7 +16,22 @@ def loop():
 
 
 def run(coro):
-    return loop().run_until_complete(coro)
+    lp = loop()
+    try:
+        return lp.run_until_complete(coro)
+    except BaseException:
+        # a verdict raised in mid-run must not leave tasks behind for the next case (state shared between
+        # cases would make verdicts depend on history)
+        try:
+            pending = [t for t in asyncio.all_tasks(lp) if not t.done()]
+            for t in pending:
+                t.cancel()
+            if pending:
+                lp.run_until_complete(asyncio.gather(*pending, return_exceptions=True))
+        except BaseException:
+            global _LOOP
+            _LOOP = None
+        raise
 
 
 def build_scope(method='GET', raw_path='/', query='', headers=(), scheme='http',
